@@ -27,7 +27,92 @@ def chunks(tier):
                 continue
             out.append(dict(mode="order", shape=list(shape)))
     out.sort(key=lambda c: sum(c["shape"]))
+    for n in (2, 3):
+        for colors in (False, True):
+            out.append(dict(mode="text", shape=[1] * n, colors=colors))
     return out
+
+
+TEXT_NAMES = ["BAD_LEXEME", "TOO_MANY_LINES", "SPACE_EMPTY_LINE"]
+TEXT_ALPHA = "".join(chr(c) for c in range(32, 127))
+
+
+def run_text_chunk(chunk, ctx):
+    """(d'): the real HumanizedErrorsFormatter on diagnostics whose TEXT is symbolic (every character a solver variable):
+    each printed line must carry the code, level, position and text of ITS OWN diagnostic (z3 query per field); the
+    witness of every class also goes through the JSON formatter natively."""
+    from norminette.errors import Error, Highlight, HumanizedErrorsFormatter
+    from norminette.file import File
+    from symx.core import SymStr, choose, key_expr
+    n, colors = len(chunk["shape"]), chunk["colors"]
+    ex = Explorer()
+    core.set_run(ex)
+    col = Collector(HNAME, seed=ctx["seed"], sample_rate=1.0, max_witness=200)
+    tv = [[declare(Var(f"t{i}_{j}", map(ord, TEXT_ALPHA))) for j in range(2)] for i in range(n)]
+    cur = {}
+
+    def body():
+        cur.clear()
+        names = [TEXT_NAMES[choose(f"nm{i}", len(TEXT_NAMES))] for i in range(n)]
+        levels = [("Error", "Notice")[choose(f"lv{i}", 2)] for i in range(n)]
+        f = File("t.c", "x\n")
+        errs = []
+        for i in range(n):
+            e = Error(names[i], SymStr(list(tv[i])), level=levels[i], highlights=[Highlight(i + 1, 2 * i + 1)])
+            errs.append(e)
+            f.errors.add(e)
+        out = HumanizedErrorsFormatter(f, use_colors=colors).__str__()
+        lines = out.split("\n")
+        m = ex.model()
+        case = dict(mode="text", colors=colors,
+                    errors=[dict(name=names[i], level=levels[i], text=SymStr(list(tv[i])).concretize(m), highlights=[[i + 1, 2 * i + 1, None]])
+                            for i in range(n)])
+        cur["case"] = case
+        bad = None
+        if len(lines) != n + 2:
+            bad = "line-count"
+        for i in range(n):
+            if bad:
+                break
+            line = lines[i + 1]
+            prefix = f"{levels[i]}: {names[i]:<20} (line: {i + 1:>3}, col: {2 * i + 1:>3}):\t"
+            if len(line) < len(prefix) or not (line[:len(prefix)] == prefix):
+                bad = "prefix"
+                break
+            rest = line[len(prefix):]
+            if len(rest) >= 1 and rest[0:1] == "\x1b":
+                j = rest.find("m")
+                rest = rest[j + 1:len(rest) - 4]
+            want = SymStr(list(tv[i]))
+            if len(rest) != 2:
+                bad = "text-length"
+                break
+            k = want.eq_key(rest)
+            if k is False or (k is not True and ex.feasible(z3.Not(key_expr(k)))):
+                # a model in which the printed text differs from the diagnostic's own text
+                if k is not False and k is not True:
+                    ex.solver.push()
+                    ex.solver.add(z3.Not(key_expr(k)))
+                    m2 = ex.model()
+                    ex.solver.pop()
+                    for q in range(n):
+                        case["errors"][q]["text"] = SymStr(list(tv[q])).concretize(m2)
+                bad = "text"
+        if bad:
+            same = "same-code" if len(set(names)) < n else "distinct-codes"
+            col.violation(f"C08:format:humanized-{bad}:{same}", "a humanized line does not carry the text / fields of its own diagnostic", case)
+            cur["viol"] = True
+        return dict(ok=not bad)
+
+    def on_path(res, status):
+        if status == "gap":
+            col.gap(str(res)[:100])
+        elif status == "ok" and not cur.get("viol") and col.want_witness():
+            col.add_witness(cur["case"], dict(ok=True))
+    ex.explore(body, on_path=on_path, max_time=max(1.0, ctx["deadline"] - time.time()), path_alarm=10.0)
+    res = col.finish()
+    res["stats"] = ex.stats()
+    return res
 
 
 def mk_errors(ex, shape, first_min):
@@ -154,6 +239,8 @@ def order_violations(errs_in_order, report, shape):
 def run_chunk(chunk, ctx):
     from norminette.errors import Errors
     mode, shape = chunk["mode"], chunk["shape"]
+    if mode == "text":
+        return run_text_chunk(chunk, ctx)
     ex = Explorer()
     core.set_run(ex)
     spec = mk_errors(ex, shape, first_min=True)
@@ -226,16 +313,45 @@ def format_violations(errs, report):
             report("C08:format:diagnostics", "the two formats list different diagnostics or a different order")
 
 
+def text_violations(errs, colors, report):
+    """native twin of run_text_chunk's assertion"""
+    from norminette.file import File
+    from norminette.errors import HumanizedErrorsFormatter
+    f = File("t.c", "x\n")
+    for e in errs:
+        f.errors.add(e)
+    lines = str(HumanizedErrorsFormatter(f, use_colors=colors)).split("\n")
+    same = "same-code" if len({e.name for e in errs}) < len(errs) else "distinct-codes"
+    if len(lines) != len(errs) + 2:
+        report(f"C08:format:humanized-line-count:{same}", "line count")
+        return
+    for i, e in enumerate(errs):
+        line = re.sub(r"\x1b\[[0-9;]*m", "", lines[i + 1])
+        h = e.highlights[0]
+        prefix = f"{e.level}: {e.name:<20} (line: {h.lineno:>3}, col: {h.column:>3}):\t"
+        if not line.startswith(prefix):
+            report(f"C08:format:humanized-prefix:{same}", "prefix")
+            return
+        if line[len(prefix):] != e.text:
+            report(f"C08:format:humanized-text:{same}", "a humanized line does not carry the text of its own diagnostic")
+            return
+
+
 def replay(case):
     from norminette.errors import Error, Highlight, Errors
-    errs = [Error.from_name(e["name"], level=e["level"], highlights=[Highlight(l, c, None, h) for l, c, h in e["highlights"]])
+    errs = [(Error(e["name"], e["text"], level=e["level"], highlights=[Highlight(l, c, None, h) for l, c, h in e["highlights"]])
+             if "text" in e else
+             Error.from_name(e["name"], level=e["level"], highlights=[Highlight(l, c, None, h) for l, c, h in e["highlights"]]))
             for e in case["errors"]]
     viol = []
 
     def report(fp, what, m=None):
         viol.append([fp, what])
     shape = [len(e.highlights) for e in errs]
-    if case["mode"] == "laws":
+    if case["mode"] == "text":
+        text_violations(errs, case.get("colors", False), report)
+        format_violations(errs, report)
+    elif case["mode"] == "laws":
         laws(errs[0], errs[1], errs[2], lambda fp, what, m=None: report(fp + ":" + "x".join(map(str, shape)), what))
     else:
         box = Errors()
